@@ -5,8 +5,10 @@
    and the output.  [spec_handle] is what JSON-RPC 2.0 prescribes.  The theorems quantify over ALL JSON
    values, ALL method tables and ALL coercion / zero-value / handler functions. *)
 From Coq Require Import String.
-From Coq Require Import List Ascii Bool.
+From Coq Require Import List Ascii Bool NArith.
 From V Require Import C11.Model C11.Proofs C11.Proofs_witness.
+From V Require Import C11.Proofs_json_lex C11.Proofs_json_utf8 C11.Proofs_json C11.Proofs_json_print
+  C11.Proofs_json_sound C11.Proofs_bytes C11.Proofs_json_witness.
 Import ListNotations.
 Open Scope str_scope.
 
@@ -186,6 +188,300 @@ Theorem C11_positional_eq_named_needed :
 Proof. exact positional_eq_named_needed_lemma. Qed.
 Print Assumptions C11_positional_eq_named_needed.
 
+(* =====================================================================================================
+   THE BYTE LEVEL (Json.v).  [parse_first bs] is what json.Decoder.Decode makes of the request bytes: the
+   first JSON value of the stream and the bytes after it (None = Decode reports a syntax error);
+   [is_batch bs] is isBatch's verdict through the 128-byte bufio window; [input_of_bytes] pairs them;
+   [handle_bytes] is HandleReader on raw bytes.  Grammars ([Number], [StrBody], [Utf8]) and text trees
+   ([wsj], [print_wsj], [erase], [wsj_ok]) are defined in Json.v.
+   ===================================================================================================== *)
+
+(* ---- the number lexer accepts exactly RFC 8259's number grammar (as a prefix lexer: maximal munch, no
+   back-tracking) ---- *)
+Theorem C11_json_number_accept :
+  forall s rest, Number s -> number_delim rest = true -> lex_number (s ++ rest) = Some (s, rest).
+Proof. exact lex_number_accept. Qed.
+Print Assumptions C11_json_number_accept.
+
+Theorem C11_json_number_reject :                       (* whatever is returned is a number of the grammar, verbatim *)
+  forall bs s rest, lex_number bs = Some (s, rest) -> Number s /\ bs = s ++ rest.
+Proof. exact lex_number_sound. Qed.
+Print Assumptions C11_json_number_reject.
+
+Theorem C11_json_number_exact : forall s, number_ok s = true <-> Number s.
+Proof. exact number_ok_iff. Qed.
+Print Assumptions C11_json_number_exact.
+
+(* ---- the string lexer accepts exactly the literals of the scanner's grammar and decodes them with
+   [unquote] ---- *)
+Theorem C11_json_string_accept :
+  forall body q rest, StrBody body -> is_byte q 34 = true ->
+    lex_string (body ++ q :: rest) = Some (unquote body, rest).
+Proof. exact lex_string_accept. Qed.
+Print Assumptions C11_json_string_accept.
+
+Theorem C11_json_string_reject :
+  forall bs s rest, lex_string bs = Some (s, rest) ->
+    exists body q, StrBody body /\ is_byte q 34 = true /\ bs = body ++ q :: rest /\ s = unquote body.
+Proof. exact lex_string_sound. Qed.
+Print Assumptions C11_json_string_reject.
+
+(* ---- decoding: whatever the literal, the result is well-formed UTF-8; and the rules one by one ---- *)
+Theorem C11_json_unquote_utf8 : forall body, Utf8 (unquote body).
+Proof. exact unquote_utf8. Qed.
+Print Assumptions C11_json_unquote_utf8.
+
+Theorem C11_json_utf8_check_exact : forall s, utf8_ok s = true <-> Utf8 s.
+Proof. exact utf8_ok_iff. Qed.
+Print Assumptions C11_json_utf8_check_exact.
+
+Theorem C11_json_unquote_ascii :
+  forall c r, is_byte c 92 = false -> (N_of_ascii c < 128)%N -> unquote (c :: r) = c :: unquote r.
+Proof. exact unquote_ascii. Qed.
+Print Assumptions C11_json_unquote_ascii.
+
+Theorem C11_json_unquote_escape :
+  forall b e x r, is_byte b 92 = true -> simple_escape e = Some x -> unquote (b :: e :: r) = x :: unquote r.
+Proof. exact unquote_simple_escape. Qed.
+Print Assumptions C11_json_unquote_escape.
+
+Theorem C11_json_unquote_u_scalar :                    (* \uXXXX outside D800..DFFF: the code point in UTF-8 *)
+  forall b u h1 h2 h3 h4 r,
+    is_byte b 92 = true -> is_byte u 117 = true ->
+    is_hex h1 = true -> is_hex h2 = true -> is_hex h3 = true -> is_hex h4 = true ->
+    is_surrogate (hex4 h1 h2 h3 h4) = false ->
+    unquote (b :: u :: h1 :: h2 :: h3 :: h4 :: r) = utf8_encode (hex4 h1 h2 h3 h4) ++ unquote r.
+Proof. exact unquote_u_scalar. Qed.
+Print Assumptions C11_json_unquote_u_scalar.
+
+Theorem C11_json_unquote_u_pair :                      (* high surrogate escape + low surrogate escape: one code point *)
+  forall b u h1 h2 h3 h4 r x,
+    is_byte b 92 = true -> is_byte u 117 = true ->
+    is_hex h1 = true -> is_hex h2 = true -> is_hex h3 = true -> is_hex h4 = true ->
+    is_surrogate (hex4 h1 h2 h3 h4) = true -> pair_after (hex4 h1 h2 h3 h4) r = Some x ->
+    unquote (b :: u :: h1 :: h2 :: h3 :: h4 :: r) = utf8_encode x ++ unquote (skipn 6 r).
+Proof. exact unquote_u_pair. Qed.
+Print Assumptions C11_json_unquote_u_pair.
+
+Theorem C11_json_unquote_u_lone :                      (* any other surrogate escape: U+FFFD, only it is consumed *)
+  forall b u h1 h2 h3 h4 r,
+    is_byte b 92 = true -> is_byte u 117 = true ->
+    is_hex h1 = true -> is_hex h2 = true -> is_hex h3 = true -> is_hex h4 = true ->
+    is_surrogate (hex4 h1 h2 h3 h4) = true -> pair_after (hex4 h1 h2 h3 h4) r = None ->
+    unquote (b :: u :: h1 :: h2 :: h3 :: h4 :: r) = repl ++ unquote r.
+Proof. exact unquote_u_lone. Qed.
+Print Assumptions C11_json_unquote_u_lone.
+
+Theorem C11_json_unquote_wellformed_bytes :            (* a well-formed UTF-8 sequence is copied *)
+  forall q r, Utf8Seq q -> (match q with a :: _ => is_byte a 92 = false | [] => True end) ->
+    unquote (q ++ r) = q ++ unquote r.
+Proof. exact unquote_seq. Qed.
+Print Assumptions C11_json_unquote_wellformed_bytes.
+
+Theorem C11_json_utf8_reencode :                       (* ... which is what DecodeRune + EncodeRune amount to *)
+  forall q, Utf8Seq q ->
+    utf8_encode (utf8_decode_seq q) = q /\
+    (utf8_decode_seq q < 1114112)%N /\ is_surrogate (utf8_decode_seq q) = false.
+Proof. exact utf8_reencode_scalar. Qed.
+Print Assumptions C11_json_utf8_reencode.
+
+Theorem C11_json_unquote_illformed_byte :              (* a byte that starts no well-formed sequence: U+FFFD *)
+  forall c r, (128 <= N_of_ascii c)%N -> utf8_len (c :: r) = 0 -> unquote (c :: r) = repl ++ unquote r.
+Proof. exact unquote_invalid_byte. Qed.
+Print Assumptions C11_json_unquote_illformed_byte.
+
+Theorem C11_json_unquote_quote : forall s, Utf8 s -> unquote (quote_body s) = s.
+Proof. exact unquote_quote_body. Qed.
+Print Assumptions C11_json_unquote_quote.
+
+(* ---- the parser is total (enough fuel is never exhausted; parse_first supplies 2 * length + 2) and its
+   verdict does not depend on the amount of fuel; being a Gallina function it is deterministic ---- *)
+Theorem C11_json_parse_total :
+  forall f d bs, 2 * length bs + 1 <= length f -> p_value f d bs <> PFuel.
+Proof. exact p_value_total. Qed.
+Print Assumptions C11_json_parse_total.
+
+Theorem C11_json_parse_fuel_independent :
+  forall f1 f2 d bs, 2 * length bs + 1 <= length f1 -> 2 * length bs + 1 <= length f2 ->
+    p_value f1 d bs = p_value f2 d bs.
+Proof. exact p_value_fuel_indep. Qed.
+Print Assumptions C11_json_parse_fuel_independent.
+
+Theorem C11_json_parse_first_never_out_of_fuel : forall bs, p_value (fuel_for bs) max_depth bs <> PFuel.
+Proof. exact parse_first_total. Qed.
+Print Assumptions C11_json_parse_first_never_out_of_fuel.
+
+(* ---- completeness: every text of the grammar, with arbitrary insignificant white space wherever the
+   grammar allows it (the strings w.. inside [t]) and in front, nested at most 10000 deep, is accepted and
+   denotes [erase t], whatever follows (a number must not be continued by what follows) ---- *)
+Theorem C11_json_parse_text :
+  forall t w rest, wsj_ok max_depth t = true -> all_ws w = true ->
+    match t with WNum _ => number_delim rest = true | _ => True end ->
+    parse_first (w ++ print_wsj t ++ rest) = Some (erase t, rest).
+Proof. exact parse_first_text. Qed.
+Print Assumptions C11_json_parse_text.
+
+(* ---- white-space insensitivity: two layouts of the same value parse alike ---- *)
+Theorem C11_json_whitespace_insensitive :
+  forall t1 t2 w1 w1' w2 w2',
+    wsj_ok max_depth t1 = true -> wsj_ok max_depth t2 = true -> erase t1 = erase t2 ->
+    all_ws w1 = true -> all_ws w1' = true -> all_ws w2 = true -> all_ws w2' = true ->
+    parse (w1 ++ print_wsj t1 ++ w1') = parse (w2 ++ print_wsj t2 ++ w2').
+Proof. exact parse_ws_insensitive. Qed.
+Print Assumptions C11_json_whitespace_insensitive.
+
+Theorem C11_json_parse_layout :
+  forall v t w w', wsj_ok max_depth t = true -> erase t = v -> all_ws w = true -> all_ws w' = true ->
+    parse (w ++ print_wsj t ++ w') = Some v.
+Proof. exact parse_layout. Qed.
+Print Assumptions C11_json_parse_layout.
+
+(* ---- parse . print = id on the values the parser can produce ---- *)
+Theorem C11_json_print_parse : forall v, json_wf max_depth v = true -> parse (print v) = Some v.
+Proof. exact parse_print. Qed.
+Print Assumptions C11_json_print_parse.
+
+Theorem C11_json_print_parse_trailing :
+  forall v rest, json_wf max_depth v = true ->
+    match v with JNum _ => number_delim rest = true | _ => True end ->
+    parse_first (print v ++ rest) = Some (v, rest).
+Proof. exact parse_first_print. Qed.
+Print Assumptions C11_json_print_parse_trailing.
+
+Theorem C11_json_parse_wf :                            (* ... and those are the values [json_wf] describes *)
+  forall bs v r, parse_first bs = Some (v, r) -> json_wf max_depth v = true.
+Proof. exact parse_first_wf. Qed.
+Print Assumptions C11_json_parse_wf.
+
+Theorem C11_json_print_parse_needed :                  (* outside json_wf the round trip fails *)
+  parse (print (JStr [byte_of 255])) = Some (JStr repl) /\
+  parse (print (JNum L"01")) = Some (JNum L"0") /\
+  parse (print (JNum L"1.")) = None /\
+  json_wf 1 (JArr [JArr []]) = false /\ p_value (fuel_for (print (JArr [JArr []]))) 1 (print (JArr [JArr []])) = PBad.
+Proof. exact print_parse_needed. Qed.
+Print Assumptions C11_json_print_parse_needed.
+
+(* ---- soundness: only texts of the grammar are accepted; the documents are exactly the grammar ---- *)
+Theorem C11_json_parse_sound :
+  forall bs v r, parse_first bs = Some (v, r) ->
+    exists w t, all_ws w = true /\ wsj_ok max_depth t = true /\ bs = w ++ print_wsj t ++ r /\ erase t = v.
+Proof. exact parse_first_sound. Qed.
+Print Assumptions C11_json_parse_sound.
+
+Theorem C11_json_document_exact :
+  forall bs v,
+    (exists r, parse_first bs = Some (v, r) /\ all_ws r = true) <->
+    (exists w t w', all_ws w = true /\ all_ws w' = true /\ wsj_ok max_depth t = true /\
+                    bs = w ++ print_wsj t ++ w' /\ erase t = v).
+Proof. exact parse_document_iff. Qed.
+Print Assumptions C11_json_document_exact.
+
+(* ---- batch detection is exact: the first non-space byte is '[' and lies within the first 128 bytes ---- *)
+Theorem C11_json_batch_detection_exact :
+  forall bs, is_batch bs = true <->
+    exists w c r, bs = w ++ c :: r /\ all_ws w = true /\ is_byte c 91 = true /\ length w < 128.
+Proof. exact is_batch_iff. Qed.
+Print Assumptions C11_json_batch_detection_exact.
+
+Theorem C11_json_batch_is_array :
+  forall bs v, is_batch bs = true -> parse bs = Some v -> exists l, v = JArr l.
+Proof. exact batch_parses_to_array. Qed.
+Print Assumptions C11_json_batch_is_array.
+
+(* ---- hence the hypothesis [grammar_ok] of the value-level theorems holds of every byte sequence ---- *)
+Theorem C11_json_grammar_ok : forall bs, grammar_ok (input_of_bytes bs) = true.
+Proof. exact grammar_ok_bytes. Qed.
+Print Assumptions C11_json_grammar_ok.
+
+(* =====================================================================================================
+   THE HEADLINE THEOREMS FROM BYTES: for every byte sequence [bs] ...
+   ===================================================================================================== *)
+Theorem C11_bytes_resp_wellformed :
+  forall coerce zero run (ms : methods) (bs : str),
+    resp_wellformed (snd (handle_bytes coerce zero run ms bs)) = true.
+Proof. exact bytes_wellformed. Qed.
+Print Assumptions C11_bytes_resp_wellformed.
+
+Theorem C11_bytes_refines_spec :
+  forall coerce zero run (ms : methods) (bs : str),
+    no_deviation coerce zero ms (input_of_bytes bs) = true ->
+    handle_bytes coerce zero run ms bs = spec_bytes coerce zero run ms bs.
+Proof. exact bytes_refines_spec. Qed.
+Print Assumptions C11_bytes_refines_spec.
+
+Theorem C11_bytes_spec_ok :
+  forall coerce zero run (ms : methods) (bs : str),
+    no_deviation coerce zero ms (input_of_bytes bs) = true ->
+    spec_ok coerce zero run ms (input_of_bytes bs) (handle_bytes coerce zero run ms bs) = true.
+Proof. exact bytes_spec_ok. Qed.
+Print Assumptions C11_bytes_spec_ok.
+
+Theorem C11_bytes_resp_correlated :
+  forall coerce zero run (ms : methods) (bs : str),
+    dev_batch_window (input_of_bytes bs) = false ->
+    dev_null_id coerce zero ms (input_of_bytes bs) = false ->
+    dev_notif_error coerce zero ms (input_of_bytes bs) = false ->
+    resp_correlated coerce zero run ms (input_of_bytes bs) (snd (handle_bytes coerce zero run ms bs)) = true.
+Proof. exact bytes_correlated. Qed.
+Print Assumptions C11_bytes_resp_correlated.
+
+Theorem C11_bytes_codes :
+  forall coerce zero run (ms : methods) (bs : str),
+    no_deviation coerce zero ms (input_of_bytes bs) = true ->
+    codes coerce zero run ms (input_of_bytes bs) (snd (handle_bytes coerce zero run ms bs)) = true.
+Proof. exact bytes_codes. Qed.
+Print Assumptions C11_bytes_codes.
+
+Theorem C11_bytes_calls_once :
+  forall coerce zero run (ms : methods) (bs : str),
+    dev_batch_window (input_of_bytes bs) = false ->
+    calls_once coerce zero run ms (input_of_bytes bs) (fst (handle_bytes coerce zero run ms bs)) = true.
+Proof. exact bytes_calls_once. Qed.
+Print Assumptions C11_bytes_calls_once.
+
+Theorem C11_bytes_unparsable_is_parse_error :                                                            (* -32700 *)
+  forall coerce zero run (ms : methods) (bs : str),
+    parse bs = None -> handle_bytes coerce zero run ms bs = ([], Some parse_error).
+Proof. exact bytes_unparsable. Qed.
+Print Assumptions C11_bytes_unparsable_is_parse_error.
+
+(* only the first JSON value of the stream counts: the bytes after it can be replaced by anything (after a
+   top-level number: by anything that does not continue the number) *)
+Theorem C11_bytes_trailing_ignored :
+  forall coerce zero run (ms : methods) (bs : str) (v : json) (r r' : str),
+    parse_first bs = Some (v, r) ->
+    match v with JNum _ => number_delim r = true /\ number_delim r' = true | _ => True end ->
+    exists p, bs = p ++ r /\
+              handle_bytes coerce zero run ms (p ++ r') = handle_bytes coerce zero run ms bs.
+Proof. exact bytes_trailing_ignored. Qed.
+Print Assumptions C11_bytes_trailing_ignored.
+
+(* the batch-window deviation, stated on the bytes: an array whose '[' comes after >= 128 white-space bytes *)
+Theorem C11_bytes_batch_window_exact :
+  forall bs, dev_batch_window (input_of_bytes bs) = true <->
+    exists w r l, bs = w ++ byte_of 91 :: r /\ all_ws w = true /\ 128 <= length w /\ parse bs = Some (JArr l).
+Proof. exact bytes_batch_window_iff. Qed.
+Print Assumptions C11_bytes_batch_window_exact.
+
+(* value level and byte level meet: on the canonical text of a request value the byte-level server is the
+   value-level model (so every value-level theorem above is a statement about those bytes) *)
+Theorem C11_bytes_of_value :
+  forall coerce zero run (ms : methods) (v : json),
+    json_wf max_depth v = true ->
+    handle_bytes coerce zero run ms (print v) = handle coerce zero run ms (mk_input (is_arr v) (Some v)).
+Proof. exact handle_bytes_print. Qed.
+Print Assumptions C11_bytes_of_value.
+
+Theorem C11_bytes_batch_window_refuted :               (* the window deviation replayed from bytes (vm_compute) *)
+  dev_batch_window (input_of_bytes w_window_bytes) = true /\
+  handle_bytes coerce_go zero_go run_echo ms_demo w_window_bytes = ([], Some parse_error) /\
+  spec_bytes coerce_go zero_go run_echo ms_demo w_window_bytes =
+    ([(L"add", [JNum L"1"; JNum L"2"])], Some (JArr [mk_result (JNum L"7") (JArr [JNum L"1"; JNum L"2"])])) /\
+  handle_bytes coerce_go zero_go run_echo ms_demo (skipn 1 w_window_bytes) =
+    spec_bytes coerce_go zero_go run_echo ms_demo (skipn 1 w_window_bytes).
+Proof. exact window_bytes_refuted. Qed.
+Print Assumptions C11_bytes_batch_window_refuted.
+
 (* ---------- the statements are not vacuous ---------- *)
 Example hypotheses_satisfiable :
   grammar_ok w_mixed = true /\ no_deviation coerce_go zero_go ms_demo w_mixed = true /\
@@ -210,3 +506,25 @@ Proof. exact positional_named_example. Qed.
 Example optional_tail_holds_of_demo_methods :
   forallb (fun m => optional_tail (m_params m)) (firstn 2 ms_demo) = true.
 Proof. vm_compute. reflexivity. Qed.
+
+(* ---------- byte level: concrete instances (vm_compute) ---------- *)
+Example bytes_mixed_batch :                            (* the 7-entry mixed batch of [hypotheses_satisfiable], from its text *)
+  json_wf max_depth w_mixed_value = true /\
+  input_of_bytes (print w_mixed_value) = w_mixed /\
+  no_deviation coerce_go zero_go ms_demo (input_of_bytes (print w_mixed_value)) = true /\
+  handle_bytes coerce_go zero_go run_echo ms_demo (print w_mixed_value) = hdl w_mixed.
+Proof. exact bytes_mixed_example. Qed.
+
+Example json_text_with_whitespace_and_escapes :
+  parse_first (L" [1 , -2.5e+3,	""a\u00e9\ud83d\ude00\ud800x"" , {""k"" : null, ""k"":[ ]}]]tail") =
+  Some (JArr [JNum L"1"; JNum L"-2.5e+3";
+              JStr (L"a" ++ [byte_of 195; byte_of 169; byte_of 240; byte_of 159; byte_of 152; byte_of 128;
+                             byte_of 239; byte_of 191; byte_of 189] ++ L"x");
+              JObj [(L"k", JNull); (L"k", JArr [])]], L"]tail").
+Proof. vm_compute. reflexivity. Qed.
+
+Example json_first_value_only :
+  parse_first L"01" = Some (JNum L"0", L"1") /\ parse_first L"nullx" = Some (JNull, L"x") /\
+  parse_first L"{}{}" = Some (JObj [], L"{}") /\ parse_first L"1.x" = None /\ parse_first L"[1,]" = None /\
+  parse_first L"-" = None /\ parse_first L"" = None.
+Proof. vm_compute. repeat split; reflexivity. Qed.
